@@ -182,10 +182,16 @@ fn process_file_into(
         {
             let grammar = parse_and_normalize_grammar(&session, &file_text)?;
             let buffer = emit_recursive_ascent(&session, &grammar, report_file)?;
-            let mut output_file = fs::File::create(rs_file)?;
-            writeln!(output_file, "{LALRPOP_VERSION_HEADER}")?;
-            writeln!(output_file, "{}", hash_file(lalrpop_file)?)?;
-            output_file.write_all(&buffer)?;
+            // Write to a temporary file next to the output and rename it into place, so that an
+            // interrupted build never leaves a truncated file whose header claims it is up to date.
+            let tmp_file = rs_file.with_extension("rs.tmp");
+            {
+                let mut output_file = fs::File::create(&tmp_file)?;
+                writeln!(output_file, "{LALRPOP_VERSION_HEADER}")?;
+                writeln!(output_file, "{}", hash_file(lalrpop_file)?)?;
+                output_file.write_all(&buffer)?;
+            }
+            fs::rename(&tmp_file, rs_file)?;
         }
     }
     Ok(())
